@@ -1,6 +1,6 @@
 SPECIFICATION Spec
 CONSTANTS
-  Caps = {44, 51, 62, 80}
+  Caps = {44, 51, 62}
   Inits <- DeepInits
   InitOnly <- DeepInits
   Steps <- ThorSteps
